@@ -2933,7 +2933,7 @@ def SIS_heterogeneous_pairwise(Sk0, Ik0, SkSl0, SkIl0, IkIl0, tau, gamma,
     Ik = Nk[:,None] - Sk
     I = Ik.sum(axis=0)
     if return_full_data:
-        SkSl = X.T[kcount:kcount+kcaount**2]
+        SkSl = X.T[kcount:kcount+kcount**2]
         SkIl = X.T[kcount+kcount**2:]
         SkSl.shape = (kcount,kcount,tcount)
         SkIl.shape = (kcount,kcount,tcount)
